@@ -150,6 +150,8 @@ func checkC07(p *Prog, r *Report) {
 	ruleBOPair(p, r)
 	ruleBONest(p, r)
 	ruleBOSym(p, r)
+	ruleStreamPos(p, r)
+	r.Floor("STREAMPOS", 1)
 	r.Floor("BO-SRC", 20)
 	r.Floor("BO-PAIR", 4)
 	r.Floor("BO-SYM", 6)
